@@ -33,7 +33,7 @@ try:
                 if p.returncode == 0:
                     for pr in props:
                         t = time.time()
-                        c = subprocess.run(['./check', pr, '--tier', 'quick'], cwd=VERIF, capture_output=True, timeout=1800, env=dict(os.environ, VERIF_REPO=REPO))
+                        c = subprocess.run(['./check', pr, '--tier', 'quick'], cwd=VERIF, capture_output=True, timeout=1800, env=dict(os.environ, VERIF_REPO=REPO, VERIF_EVIDENCE_DIR=os.path.join(VERIF, 'replays', 'seed-evidence')))
                         out = c.stdout.decode()
                         viol = [l for l in out.split('\n') if l.startswith('VIOLATION')]
                         res['props'][pr] = {'exit': c.returncode, 'violation': viol[:1], 'first': [l for l in out.split('\n') if l.startswith(('FAILING-INPUT', 'BROKEN'))][:2], 'wall': round(time.time() - t, 1)}
